@@ -11,6 +11,9 @@ CLAIMED = {
  "C13": dict(
    text="every row of the tool's real command table x arities 1..5 (thorough 1..8) x black/white lists: each argument and prefix is a symbolic byte, so every combination of passing/non-passing keys is a solver-decided path; the rewritten argv is compared with the Redis key-position specification",
    note=NOTE_COMMON + "one-byte arguments and prefixes; Redis' (first,last,step) table is hard-coded on the specification side"),
+ "C11": dict(
+   text="one-step lemmas over the real SSA of both in-repo CRC-64 implementations from an arbitrary 64-bit state (table step = bitwise Jones step; step injective in state and byte; chunking independence; Sum/Reset layout) plus the real payload checkers (utils.CheckVersionChecksum, cupcake verifyDump) on symbolic payloads whose trailer is built with the tool's own digest: accept intact, reject altered checksum byte, unsupported version, short input",
+   note=NOTE_COMMON + "stream-length induction from the one-step lemmas is on paper; altered data bytes in a checked payload rest on step injectivity (three chained table steps time out in every back end); payload bodies <= 2 bytes"),
  "C15": dict(
    text="bounded symbolic execution of utils.KeyToSlot from its SSA: for every key length up to the bound all byte values are covered by solver-decided paths; the slot is compared with the cluster-spec tag rule",
    note=NOTE_COMMON + "bounded key length; CRC16 applied by the tool's own function on both sides"),
